@@ -66,6 +66,14 @@ CHECKS = {
              "(disjoint, fully shared, chain, non-adjacent sharing, mixed with a non-chi2 member, single member). Each history is executed on a real MultiFit: one value per name in the multi-fit and all members, ndf = the specification's integer, "
              "cost = sum of member costs without shared sources and = the joint -2 log L with the shared matrix in exactly the blocks the specification lists, the joint covariance matrix itself, after do_fit the optimum = the joint GLS solution and every member reports sub-blocks of the multi-fit result.",
         note="Trusted: TLC, harness/adapters/multifit.py (numpy GLS). Members are 3-point indexed fits with linear models plus one Poisson histogram member; sources absolute and uncorrelated between points. Known finding KF-C11-SHARED-MEMBER-CONSTRAINTS is reported as such."),
+    "C09": dict(
+        category="model_checking", design_ref="DESIGN.md 4.8, 5/C09",
+        technique="TLA+ specs FileIO.tla (append-mode handle, truncate, one document per path, read through own / base / other class, second cycle) and ErrorModel.tla / FitCache.tla with a Reload action at every position of their histories, model-checked with TLC; replayed with real files on a catalogue of 22 configured objects, and with the original object kept alive next to the reloaded one for every later step",
+        text="TLC checks ExactlyOneDocument / ReadReturnsLastWritten / NeverGarbled for write-write-read-rewrite sequences of different object kinds on one path, and ReadCorrect for container histories in which the object is saved and reloaded at any point. "
+             "Replay: each of 22 objects (4 container types incl. manual heights with underflow != overflow, 3 parametric models, 4 constraint forms, 9 fits: fitted or not, fixed/limited/constrained, disabled and model-referenced sources, asymmetric errors) is written, "
+             "read back through its own class / family base / a wrong class, written again and read again, comparing a projection of everything the statement lists; containers and fits are reloaded in the middle of ErrorModel / FitCache histories and every later observation "
+             "is compared with the exact ideal (containers) or with the original object receiving the same later calls (fits).",
+        note="Trusted: TLC, harness/adapters/fileio.py (catalogue, projections; 1e-9 for unfitted objects, 1e-3 for quantities that went through a minimizer), harness/adapters/errormodel.py. Model functions must be self-contained source text (documented form). CustomFit is not covered."),
 }
 NOT_APPLICABLE = {
     "C16": "Pure real-valued special-function identity (chi2 CDF and its inverse): no state or transitions, and TLC has neither reals nor exp; "
